@@ -264,6 +264,7 @@ def _case(draw, force_comp=None, force_klass=None):
         a_perf_f32=draw(st.integers(0, 3)) == 0,
         return_utilities=draw(st.integers(0, 3)) > 0,
         as_list=draw(st.integers(0, 3)) == 0,
+        annot_dtype=draw(st.sampled_from(["bool", "bool", "int01"])),
         seed=draw(st.integers(0, 2**31 - 1)),
         inner_seed=draw(st.integers(0, 2**31 - 1)),
     )
@@ -495,6 +496,11 @@ def run_case(case):
     else:
         annot_arg = np.array(case["annotators"], dtype=bool).reshape(
             len(sel_rows) if cm != "none" else len(X), na)
+        if case.get("annot_dtype") == "int01":
+            # the availability matrix is an array-like that is converted to
+            # bool: a 0/1 integer matrix is the same mask
+            annot_arg = annot_arg.astype(int)
+        labels.append(f"annot_dtype={case.get('annot_dtype') or 'bool'}")
 
     qs, kw = _build(case, classes)
     ret_u = bool(case["return_utilities"])
